@@ -1,7 +1,111 @@
 package main
 
-// shipReplay is the model-driven replay driver for obligations of the SHIP handshake handlers
-// (filled in by shipreplay_gen.go); nil when it does not apply.
+import (
+	"encoding/json"
+	"fmt"
+	"os"
+	"path/filepath"
+	"regexp"
+	"strings"
+)
+
+// oracleFor maps an obligation of package ship to the observable oracle the search driver checks.
+func oracleFor(g *oblGroup) string {
+	n := g.Name
+	switch {
+	case strings.HasPrefix(g.Kind, "safety:"):
+		return "panic"
+	case strings.Contains(n, "E1-edge"), strings.Contains(n, "E2-final"), strings.Contains(n, "E3-step"), strings.Contains(n, "I1-reachable"):
+		return "edges"
+	case strings.Contains(n, "E4-timer"), strings.Contains(n, "I2-timer"):
+		return "timer"
+	case strings.Contains(n, "E6-"), strings.Contains(n, "I3-closed"), strings.Contains(n, "T5-closed"):
+		return "closed"
+	case strings.Contains(n, "G1-gate"), strings.Contains(n, "G0-"), strings.Contains(n, "G3-"), strings.Contains(n, "G4-"), strings.Contains(n, "I6-reader"):
+		return "gate"
+	case strings.Contains(n, ".P1-"), strings.Contains(n, ".P2-"), strings.Contains(n, ".P3-"), strings.Contains(n, ".P4-"), strings.Contains(n, ".P5-"):
+		return "pin"
+	case strings.Contains(n, "F1-"):
+		return "reports"
+	case strings.Contains(n, "D3-abort"):
+		return "abort"
+	case strings.Contains(n, ".B1-"), strings.Contains(n, ".B2-"), strings.Contains(n, ".B3-"), strings.Contains(n, ".B5-"), strings.Contains(n, ".B6-"), strings.Contains(n, ".B7-"), strings.Contains(n, ".B8-"):
+		return "delivery"
+	}
+	return ""
+}
+
+var reStateReq = regexp.MustCompile(`c\.smeState == model\.(\w+)`)
+
+// shipReplay searches the bounded scenario space of the SHIP handlers on the real code for a run that
+// violates the oracle belonging to the failed obligation (see replay_templates/ship_search_test.go).
 func shipReplay(w *World, g *oblGroup, o *Obligation, model map[string]string, repo, base string) map[string]interface{} {
-	return nil
+	if !strings.Contains(g.Fn, modPath+"/ship.") {
+		return nil
+	}
+	oracle := oracleFor(g)
+	if oracle == "" {
+		return nil
+	}
+	// start states: from the precondition of the function the obligation lives in, else every state
+	var states []uint
+	key := strings.TrimSuffix(g.Fn, "@iface")
+	if fc, ok := w.cs.Funcs[key]; ok {
+		for _, rc := range fc.Requires {
+			for _, m := range reStateReq.FindAllStringSubmatch(rc.Src, -1) {
+				if c, _, ok := w.lookupConst("model."+m[1], fc.Pkg); ok {
+					var v uint
+					fmt.Sscan(c.ExactString(), &v)
+					states = append(states, v)
+				}
+			}
+		}
+	}
+	if len(states) == 0 {
+		for s := uint(0); s <= 39; s++ {
+			states = append(states, s)
+		}
+	}
+	edges := map[string]map[string]bool{"client": {}, "server": {}}
+	if td, ok := w.cs.Tables["edge"]; ok {
+		for _, r := range td.Rows {
+			f, t := w.tableVals[r.From], w.tableVals[r.To]
+			k := fmt.Sprintf("%d>%d", f, t)
+			if r.Role == "" || r.Role == "client" {
+				edges["client"][k] = true
+			}
+			if r.Role == "" || r.Role == "server" {
+				edges["server"][k] = true
+			}
+		}
+	}
+	tmp, err := os.MkdirTemp("", "govc-shipreplay-")
+	if err != nil {
+		return nil
+	}
+	defer os.RemoveAll(tmp)
+	req := filepath.Join(tmp, "request.json")
+	out := filepath.Join(tmp, "scenario.json")
+	writeJSON(req, map[string]interface{}{"oracle": oracle, "states": states, "edges": edges, "max_runs": 60000})
+	os.Setenv("REPLAY_REQUEST", req)
+	os.Setenv("REPLAY_OUT", out)
+	defer os.Unsetenv("REPLAY_REQUEST")
+	defer os.Unsetenv("REPLAY_OUT")
+	log, ran := runOverlayTest(repo, "ship", "/verif/replay_templates/ship_search_test.go", "TestReplayShipSearch", false)
+	rep := strings.Contains(log, "REPRODUCED")
+	d := map[string]interface{}{"driver": "bounded scenario search on the real handlers (replay_templates/ship_search_test.go)", "oracle": oracle, "start_states": states, "ran": ran, "reproduced": rep}
+	if b, err := os.ReadFile(out); err == nil {
+		var sc map[string]interface{}
+		json.Unmarshal(b, &sc)
+		d["failing_scenario"] = sc
+	}
+	// keep the relevant lines of the test output
+	var keep []string
+	for _, ln := range strings.Split(log, "\n") {
+		if strings.Contains(ln, "REPRODUCED") || strings.Contains(ln, "no failing run") || strings.Contains(ln, "run budget") || strings.HasPrefix(ln, "ok") || strings.HasPrefix(ln, "FAIL") || strings.Contains(ln, "panic:") {
+			keep = append(keep, truncate(ln, 1500))
+		}
+	}
+	d["output"] = keep
+	return d
 }
